@@ -94,3 +94,59 @@ func TestMapLoadOrStoreRace(t *testing.T) {
 	}
 	t.Logf("%d schedules, outcomes %v", runs, out)
 }
+
+func TestSelectSend(t *testing.T) {
+	// a producer offers values with "select { case ch <- v: case <-quit: }"; a consumer takes two and then asks it to quit
+	runs, out := explore(t, 2, func() string {
+		ch := MakeChan[int]()
+		quit := MakeChan[struct{}]()
+		var wg WaitGroup
+		wg.Add(2)
+		sent, got := 0, 0
+		Go(func() {
+			defer wg.Done()
+			for i := 1; ; i++ {
+				switch Select(false, ch.SendCase(i), quit.RecvCase()) {
+				case 0:
+					sent++
+				case 1:
+					return
+				}
+			}
+		})
+		Go(func() {
+			defer wg.Done()
+			got += ch.Recv()
+			got += ch.Recv()
+			quit.Close()
+		})
+		wg.Wait()
+		if got != 3 || sent < 2 || sent > 3 {
+			return "broken"
+		}
+		return "ok"
+	})
+	if out["broken"] != 0 || out["ok"] == 0 {
+		t.Fatalf("outcomes %v after %d runs", out, runs)
+	}
+	t.Logf("%d schedules", runs)
+}
+
+func TestSelectSendBuffered(t *testing.T) {
+	_, out := explore(t, 1, func() string {
+		ch := MakeChan[int](1)
+		n := 0
+		for i := 0; i < 3; i++ {
+			if Select(true, ch.SendCase(i)) == 0 {
+				n++
+			}
+		}
+		if n != 1 || ch.Len() != 1 {
+			return "broken"
+		}
+		return "ok"
+	})
+	if out["broken"] != 0 {
+		t.Fatalf("outcomes %v", out)
+	}
+}
